@@ -305,7 +305,7 @@ func (handler *Handler) ProxyClientConnection(ctx context.Context, errCh chan<- 
 						"from database")
 					handler.logger.Debugln("Send error to db")
 
-					if err := handler.sendClientError(QueryExecutionWasInterrupted, packet); err != nil {
+					if err := handler.sendCommandError(QueryExecutionWasInterrupted, packet); err != nil {
 						handler.logger.WithError(err).WithField(logging.FieldKeyEventCode, logging.EventCodeErrorResponseConnectorCantWriteToClient).
 							Debugln("Can't write response with error to client")
 					}
@@ -402,7 +402,7 @@ func (handler *Handler) ProxyClientConnection(ctx context.Context, errCh chan<- 
 			if err := handler.acracensor.HandleQuery(query); err != nil {
 				censorSpan.End()
 				clientLog.WithError(err).WithField(logging.FieldKeyEventCode, logging.EventCodeErrorCensorQueryIsNotAllowed).Errorln("Error on AcraCensor check")
-				if err := handler.sendClientError(QueryExecutionWasInterrupted, packet); err != nil {
+				if err := handler.sendCommandError(QueryExecutionWasInterrupted, packet); err != nil {
 					handler.logger.WithError(err).WithField(logging.FieldKeyEventCode, logging.EventCodeErrorResponseConnectorCantWriteToClient).
 						Errorln("Can't write response with error to client")
 				}
@@ -1054,6 +1054,19 @@ func (handler *Handler) ProxyDatabaseConnection(ctx context.Context, errCh chan<
 			}
 		}
 	}
+}
+
+// sendCommandError answers a client command with an `QueryInterruptedError` instead of forwarding it.
+// The answer continues the packet sequence of the command: its sequence id is the id of the command's last
+// packet + 1 (a command of 2^24-1 bytes or more takes several packets; packet.header is the header of the first).
+// The error used to be sent in the command's own packet, i.e. with the command's sequence id (0): client
+// libraries take that for a packet out of order and give up the connection.
+func (handler *Handler) sendCommandError(msg string, command *Packet) error {
+	answer := NewPacket()
+	answer.header[SequenceIDIndex] = command.GetSequenceNumber() + byte(len(command.GetData())/MaxPayloadLen+1)
+	answer.SetData(NewQueryInterruptedError(handler.Capabilities.IsClientSetProtocol41(), msg))
+	_, err := handler.clientConnection.Write(answer.Dump())
+	return err
 }
 
 // sendClientError sends an `QueryInterruptedError` with a custom message
